@@ -26,6 +26,10 @@ type St struct {
 	CondTrue bool     `json:"cond_true,omitempty"` // has a condition that holds
 	Nested   *Gr      `json:"nested,omitempty"`
 	Allow    bool     `json:"allow,omitempty"` // allow_failure of a nesting stage
+	// ReuseOf names (by id) an earlier nesting stage of the same pipeline on which this stage depends:
+	// this stage schedules the very same pipeline object again. Its stages are already resolved by then,
+	// so the second use resolves at once, with the same verdict.
+	ReuseOf string `json:"reuse_of,omitempty"`
 }
 
 // Gr is a pipeline; Stages is the declaration order.
@@ -67,8 +71,17 @@ func newModel(g *Gr, late bool) *model {
 	m := &model{g: g, st: map[string]int{}, sub: map[string]*model{}, byName: map[string]*St{}, ran: map[string]bool{}, late: late}
 	for _, s := range g.Stages {
 		m.byName[s.Name] = s
-		if s.Nested != nil {
+		if s.Nested != nil && s.ReuseOf == "" {
 			m.sub[s.Name] = newModel(s.Nested, late)
+		}
+	}
+	for _, s := range g.Stages {
+		if s.ReuseOf != "" {
+			for _, o := range g.Stages {
+				if o.ID == s.ReuseOf {
+					m.sub[s.Name] = m.sub[o.Name]
+				}
+			}
 		}
 	}
 	return m
